@@ -5,7 +5,7 @@ text is compared byte for byte (after the ratio-printing shim of pipe.py) with
 `run_shexc_decor` evaluated by the extracted model (entry `pipe_shexc_decor`), one
 Shaper and one call per case.
 
-Two families of cases:
+Three families of cases ((C) = a handful of hand-made corner cases of the value rendering):
   (A) C17's generated graphs (instance IRIs from several namespaces, blank nodes, literals that
       look like IRIs / prefixed names, ...) x examples_mode {None, shape, cons, all} x
       detect_minimal_iri x inverse_paths; report mode, namespaces dictionary, comments switch,
@@ -101,6 +101,34 @@ def gen_items(tier, seed, c17_cases):
                     k += 1
                     items.append({"ts": ts, "cfg": cfg_for_c17_graph(r, case, dmi, mode, inv, k),
                                   "origin": ["c17-graph", case.get("idx"), case.get("corpus")]})
+    # (C) hand-made corner cases of the value rendering: a namespace that occurs twice in an IRI (str.replace
+    # replaces every occurrence), a namespace equal to its own prefixed form ("ex:" -> ex), https / urn / ftp
+    # instances and values, literals that look like IRIs or prefixed names, a value with a blank
+    T = pipe.RDF_TYPE
+    K = "http://ex.org/K"
+    hand = [
+        ([("urn:ex:", "u")], ["urn:ex:urn:ex:a", "urn:ex:b"], [("I", "urn:ex:urn:ex:b"), ("L", "urn:ex:x", pipe.XSD + "string")]),
+        ([("ex:", "ex")], ["ex:a", "ex:b"], [("I", "ex:c"), ("L", "ex:d", pipe.XSD + "string")]),
+        ([("https://s.org/", "s"), ("http://ex.org/", "ex")], ["https://s.org/a", "https://s.org/b"],
+         [("I", "https://s.org/c"), ("I", "http://ex.org/c"), ("L", "https://s.org/d e", pipe.XSD + "string")]),
+        ([("http://ex.org/", "")], ["http://ex.org/a", "http://ex.org/b"], [("I", "http://ex.org/c"), ("B", "_:x")]),
+        ([], ["ftp://h/a", "ftp://h/b"], [("I", "ftp://h/c"), ("L", "http", pipe.XSD + "string"), ("L", "5", pipe.XSD + "integer")]),
+        ([("http://ex.org/a#", "a"), ("http://ex.org/", "ex")], ["http://ex.org/a#i", "http://ex.org/a#j"],
+         [("I", "http://ex.org/a#k"), ("I", "http://ex.org/k"), ("L", "a:k", pipe.XSD + "string")]),
+    ]
+    for hi, (ns, insts, vals) in enumerate(hand):
+        ts = [(("I", i), T, ("I", K)) for i in insts]
+        for vi, v in enumerate(vals):
+            ts.append((("I", insts[vi % len(insts)]), "http://ex.org/p%d" % vi, v))
+            if v[0] != "L":
+                ts.append(((v[0], v[1]), "http://ex.org/q", ("I", insts[0])))
+        r = random.Random("decorC/%d/%d" % (seed, hi))
+        for inv in (False, True):
+            for mode in MODES:
+                for dmi in (False, True):
+                    cfg = pipe.base_cfg()
+                    cfg.update(inverse_paths=inv, ns=list(ns), mode=r.choice(REPORT), detect_minimal_iri=dmi, examples_mode=mode)
+                    items.append({"ts": ts, "cfg": cfg, "origin": ["hand-made", hi, None]})
     nb = 1500 if tier == "thorough" else 260
     rb = random.Random("decorB/%d" % seed)
     for i in range(nb):
